@@ -10,6 +10,7 @@ from pest.grammar import Range
 from pest.grammar import Rule
 from pest.grammar import String
 from pest.grammar.expressions.choice import ChoiceCase
+from pest.grammar.expressions.choice import ChoiceChoice
 from pest.grammar.expressions.choice import ChoiceLiteral
 from pest.grammar.expressions.choice import ChoiceRange
 from pest.grammar.expressions.choice import OptimizedChoice
@@ -35,23 +36,37 @@ def squash(
     new_expr: OptimizedChoice,
 ) -> OptimizedChoice | None:
     """Squash a choice expression into an optimized regular expression."""
+    choices = _collect(exprs)
+    if choices is None:
+        return None
+    return new_expr.update(*choices)
+
+
+def _collect(exprs: list[Expression]) -> list[ChoiceChoice] | None:
+    """Flatten `exprs` into regex choices, or None if that's not possible."""
+    choices: list[ChoiceChoice] = []
     for expr in exprs:
         if isinstance(expr, String):
-            new_expr.update(ChoiceLiteral(expr.value, ChoiceCase.SENSITIVE))
+            choices.append(ChoiceLiteral(expr.value, ChoiceCase.SENSITIVE))
         elif isinstance(expr, CIString):
-            new_expr.update(ChoiceLiteral(expr.value, ChoiceCase.INSENSITIVE))
+            choices.append(ChoiceLiteral(expr.value, ChoiceCase.INSENSITIVE))
         elif isinstance(expr, UnicodePropertyRule):
-            new_expr.update(expr)
+            choices.append(expr)
         elif isinstance(expr, Range):
-            new_expr.update(ChoiceRange(expr.start, expr.stop))
+            choices.append(ChoiceRange(expr.start, expr.stop))
         elif isinstance(expr, Rule) and isinstance(expr.expression, Choice):
-            if not squash(expr.expression.expressions, new_expr):
+            inner = _collect(expr.expression.expressions)
+            if inner is None:
                 return None
+            choices.extend(inner)
         elif isinstance(expr, Choice):
-            squash(expr.expressions, new_expr)
+            inner = _collect(expr.expressions)
+            if inner is None:
+                return None
+            choices.extend(inner)
         elif isinstance(expr, OptimizedChoice):
-            new_expr.update(*expr.choices)  # noqa: SLF001
+            choices.extend(expr.choices)
         else:
             return None
 
-    return new_expr
+    return choices
